@@ -180,8 +180,8 @@ def _in_ro(story_obj):
 
 # Story
 def story_id_ok(self, result):
-    if getattr(self, '_id', None) is not None and self.xml.tag != 'story':
-        return _rec('Story', 'id', True)      # explicit-ID wrapper over a message tag: judged by C20
+    if getattr(self.xml, 'tag', None) != 'story':
+        return _rec('Story', 'id', True)      # ID wrapper over a message tag: judged by C20
     return _rec('Story', 'id', result == _text(self.xml, 'storyID'), result, _text(self.xml, 'storyID'))
 
 
@@ -225,7 +225,7 @@ def story_body_ok(self, result):
 
 # Item
 def item_id_ok(self, result):
-    if getattr(self, '_id', None) is not None and self.xml.tag != 'item':
+    if getattr(self.xml, 'tag', None) != 'item':
         return _rec('Item', 'id', True)
     return _rec('Item', 'id', result == _text(self.xml, 'itemID'), result, _text(self.xml, 'itemID'))
 
